@@ -238,13 +238,22 @@ type c20BrkCase struct {
 
 func genC20Brk(t *rapid.T) c20BrkCase {
 	var c c20BrkCase
-	c.Limit = int64(rapid.IntRange(1, 5).Draw(t, "limit"))
+	c.Limit = int64(rapid.SampledFrom([]int{1, 2, 3, 4, 5, 5, 15, 25, 40}).Draw(t, "limit"))
 	c.Interval = rapid.SampledFrom([]int64{100e6, 1e9, 10e9}).Draw(t, "interval")
 	tick := c.Interval / 20
 	gaps := []int64{0, 1, tick / 3, tick / 2, tick - 1, tick, tick + 1, 2 * tick, c.Interval / 2, c.Interval - tick, c.Interval - 1, c.Interval, c.Interval + 1, c.Interval + tick, c.Interval + tick + 1, 3 * c.Interval}
 	n := rapid.IntRange(2, 60).Draw(t, "narrivals")
 	// mode: mixed, or steady polling faster than a tick
-	mode := rapid.SampledFrom([]string{"mixed", "mixed", "poll-fast", "poll-slow"}).Draw(t, "mode")
+	mode := rapid.SampledFrom([]string{"mixed", "mixed", "poll-fast", "poll-slow", "steady", "steady"}).Draw(t, "mode")
+	if mode == "steady" {
+		// one call every g, for two to three intervals: a rate below the
+		// limit never fills the window, whatever g is relative to a tick
+		g := rapid.SampledFrom([]int64{tick / 3, tick / 2, tick * 7 / 10, tick - 1, tick + 1, tick * 13 / 10, tick * 18 / 10, 2 * tick, 3 * tick}).Draw(t, "steady-gap")
+		for i := int64(0); i*g < 3*c.Interval && i < 200; i++ {
+			c.Arrivals = append(c.Arrivals, c20Arrival{g, 1})
+		}
+		return c
+	}
 	for i := 0; i < n; i++ {
 		l := fmt.Sprintf("a%d", i)
 		var g int64
@@ -313,6 +322,20 @@ func runC20Brk(c c20BrkCase) *vlib.Outcome {
 			}
 		}
 		mustAdmit := lastAdmitted < 0 || now-lastAdmitted >= c.Interval+tick
+		// ... and whenever fewer than `limit` admitted calls are young
+		// enough to count: a window kept in buckets of one tick may hold
+		// a call for up to a tick longer than the interval (two ticks of
+		// grace here)
+		young := 0
+		for _, p := range calls {
+			if p.admitted && p.t > now-c.Interval-2*tick {
+				young++
+			}
+		}
+		agedOut := int64(young) < c.Limit
+		if agedOut {
+			mustAdmit = true
+		}
 		if int64(inWindow) >= c.Limit {
 			filled = true
 		}
@@ -341,8 +364,8 @@ func runC20Brk(c c20BrkCase) *vlib.Outcome {
 		}
 		mu.Unlock()
 		if mustAdmit && nAdm == 0 {
-			o.Fail("BREAKER_STUCK_OPEN", "limit %d interval %v: a call at +%v was refused although the last admitted call was %v earlier (more than interval + one tick); history %s",
-				c.Limit, time.Duration(c.Interval), time.Duration(now-calls[0].t), time.Duration(now-lastAdmitted), vlib.JSON(c.Arrivals))
+			o.Fail("BREAKER_STUCK_OPEN", "limit %d interval %v: a call at +%v was refused although only %d admitted calls are younger than interval + two ticks (the last admitted call was %v earlier); history %s",
+				c.Limit, time.Duration(c.Interval), time.Duration(now-calls[0].t), young, time.Duration(now-lastAdmitted), vlib.JSON(c.Arrivals))
 			return o
 		}
 		if mustAdmit && filled && lastAdmitted >= 0 {
